@@ -410,6 +410,7 @@ func (s *vScenario) project() (*vState, error) {
 			}
 			return nil, fmt.Errorf("index file %s unreadable: %w", n, err)
 		}
+		delete(s.partial, n) // (a merge output is named after its newest input: a later merge overwrites a half-written leftover)
 		st.Files[s.fid(n)] = c
 	}
 	// converter caches: which stream ids are cached and from which data version
